@@ -446,6 +446,10 @@ class SeqExec(Structured):
 
 def membership(v):
     v = iterview(v)
+    if isinstance(v, tuple) and v and v[0] == 'phi':
+        alts = {membership(x) for x in v[1]}
+        if len(alts) == 1:
+            return alts.pop()            # `attrs if isinstance(attrs, str) else set(attrs)`: the same members either way
     if v[0] == 'set' and len(v) == 2:
         return iterview(v[1])
     if v[0] in ('config', 'keys') and len(v) == 2 and is_dom(v[1]):
